@@ -307,6 +307,25 @@ def r8_state_writers(run, F):
             if fld:
                 found.setdefault(fld, {}).setdefault(fn, set()).add(meth)
                 where.setdefault((fld, fn, meth), F.where(b, n))
+    # an accessor extracted from the reviewed writers (`fn innermost_scope(&mut self) -> &mut Vec<_>`): a function outside the
+    # table whose every caller is a reviewed writer of the field acts on behalf of its callers -- its writes are attributed
+    # to them (it hands no new function access to the state)
+    g = mirq.callgraph(F.lib)
+    callers = {}
+    for f_, outs in g.items():
+        for o in outs:
+            callers.setdefault(o, set()).add(f_)
+    for fld, ref in STATE_WRITERS.items():
+        got = found.get(fld, {})
+        for fn in sorted(set(got) - set(ref)):
+            full = [p for p in F.lib.bodies if p.replace(VR, "").split("::{closure")[0] == fn and "{closure" not in p]
+            cs = set(c.replace(VR, "").split("::{closure")[0] for f_ in full for c in callers.get(f_, ()))
+            if cs and cs <= set(ref) and all(got[fn] <= ref[c] for c in cs):
+                for c in cs:
+                    got.setdefault(c, set()).update(got[fn])
+                    for m in got[fn]:
+                        where.setdefault((fld, c, m), where[(fld, fn, m)])
+                del got[fn]
     for fld, ref in STATE_WRITERS.items():
         got = found.get(fld, {})
         for fn, ms in sorted(got.items()):
